@@ -240,6 +240,8 @@ class Evidence:
             "traces_validated_against_impl": self.validated,
             "samples": self.samples or ["(none)"],
             "exhaustive": True,
+            "exhaustive_scope": "every TLC instance listed in tlc_runs is enumerated completely (BFS to the depth bound) and every "
+                                "logged transition is replayed; suite traces, random drivers and float trials are seeded samples on top",
         }
         cov.update(self.extra)
         doc = {
